@@ -492,7 +492,70 @@ func (e *FnExec) callModifies(c *ssa.CallCommon) map[string]string {
 	if onlyNothing {
 		return map[string]string{}
 	}
+	// evaluate the frame once over placeholder arguments: only the classes (types) of the items matter
+	if cl := e.dryModClasses(key, con, c); cl != nil {
+		e.P.modClasses[key] = cl
+		return cl
+	}
 	return nil
+}
+
+// dryModClasses translates the modifies clauses of a callee's contract with fresh placeholder
+// arguments on a throwaway copy of the entry state and returns the memory classes they name.
+// Facts and obligations produced on the way are discarded.
+func (e *FnExec) dryModClasses(key string, con *Contract, c *ssa.CallCommon) (out map[string]string) {
+	_, sig, _ := e.calleeKey(c)
+	if sig == nil || e.entry == nil {
+		return nil
+	}
+	nf, nb, no, ne := len(e.facts), len(e.factBlock), len(e.obls), len(e.errs)
+	defer func() {
+		if r := recover(); r != nil {
+			out = nil
+		}
+		e.facts, e.obls = e.facts[:nf], e.obls[:no]
+		if len(e.factBlock) > nb {
+			e.factBlock = e.factBlock[:nb]
+		}
+		if len(e.errs) > ne {
+			e.errs = e.errs[:ne]
+		}
+	}()
+	st := e.entry.clone()
+	pkg := e.P.typesPkg(con.PkgPath)
+	env := &SpecEnv{pureIdx: -1, e: e, cur: st, old: nil, vars: map[string]specVar{}, pkg: pkg}
+	if sig.Recv() != nil {
+		rn := sig.Recv().Name()
+		rt := sig.Recv().Type()
+		if c.IsInvoke() {
+			rt = c.Value.Type()
+		}
+		if rn == "" || rn == "_" {
+			rn = "recv"
+		}
+		v := Fresh("dry_recv", sortOf(rt))
+		env.vars[rn] = specVar{v, rt}
+		env.vars["recv"] = specVar{v, rt}
+	}
+	for k := 0; k < sig.Params().Len(); k++ {
+		p := sig.Params().At(k)
+		n := p.Name()
+		if n == "" || n == "_" {
+			n = fmt.Sprintf("p%d", k)
+		}
+		env.vars[n] = specVar{Fresh("dry_"+n, sortOf(p.Type())), p.Type()}
+	}
+	out = map[string]string{}
+	for _, m := range con.Modifies {
+		its, err := env.modItems(m)
+		if err != nil {
+			return nil
+		}
+		for _, it := range its {
+			out[it.class] = it.sort
+		}
+	}
+	return out
 }
 
 func (e *FnExec) call(st *State, instr ssa.Instruction, c *ssa.CallCommon, res ssa.Value) {
@@ -1407,10 +1470,38 @@ func (e *FnExec) appendBuiltin(st *State, c *ssa.CallCommon, res ssa.Value) {
 			}
 		}
 	} else {
-		e.note("append of a slice of unknown length: element contents abstracted")
-		e.eachScalar(sl.Elem(), nil, func(_ []int, lt types.Type) {
+		// append(s, t...) with t of any length: the new memory is described by quantified facts.
+		// Nothing to append: unchanged. Fits: the elements of t (read before the call -- append moves
+		// overlapping data as memmove does) land behind s in s's array, the rest of that array is
+		// unchanged. Grows: a new array holds s's elements and then t's; nothing else changes.
+		// (Locations that share the root of the target array but are not elements of it are left
+		// unconstrained: weaker, never wrong.)
+		empty := Eq(SLen(t), IntLit(0))
+		e.eachScalarLocChain(sl.Elem(), func(sub func(l *Term) *Term, chain []int, lt types.Type) {
 			cl, so := memClass(lt)
-			e.setMem(st, cl, so, e.freshMem(st, "hv_"+cl, so))
+			old := e.getMem(st, cl, so)
+			nw := Fresh("ma_"+cl, so)
+			l := BVar("l", "Loc")
+			i := BVar("i", "Int")
+			j := BVar("j", "Int")
+			es := arrayElemSort(so)
+			sel := func(m, loc *Term) *Term { return App("select", es, m, loc) }
+			base := Add(SOff(s), SLen(s))
+			e.addFact(st, Imp(empty, Forall([]*Term{l}, Eq(sel(nw, l), sel(old, l)))))
+			// fits: exactly the leaves of the elements base .. base+len(t)-1 of s's array change
+			isElem, ix := elemLeafOf(l, SArr(s), chain)
+			e.addFact(st, Imp(And(Not(empty), fits), And(
+				Forall([]*Term{l}, Imp(Not(And(isElem, Le(base, ix), Lt(ix, Add(base, SLen(t))))), Eq(sel(nw, l), sel(old, l)))),
+				Forall([]*Term{j}, Imp(And(Le(IntLit(0), j), Lt(j, SLen(t))),
+					Eq(sel(nw, sub(IdxLoc(SArr(s), Add(base, j)))), sel(old, sub(IdxLoc(SArr(t), Add(SOff(t), j))))))))))
+			// grows: only the new array is written
+			e.addFact(st, Imp(And(Not(empty), Not(fits)), And(
+				Forall([]*Term{l}, Imp(Neq(Root(l), Root(newArr)), Eq(sel(nw, l), sel(old, l)))),
+				Forall([]*Term{i}, Imp(And(Le(IntLit(0), i), Lt(i, SLen(s))),
+					Eq(sel(nw, sub(IdxLoc(newArr, i))), sel(old, sub(IdxLoc(SArr(s), Add(SOff(s), i))))))),
+				Forall([]*Term{j}, Imp(And(Le(IntLit(0), j), Lt(j, SLen(t))),
+					Eq(sel(nw, sub(IdxLoc(newArr, Add(SLen(s), j)))), sel(old, sub(IdxLoc(SArr(t), Add(SOff(t), j))))))))))
+			e.setMem(st, cl, so, nw)
 		})
 	}
 	e.set(res, r)
@@ -1419,22 +1510,27 @@ func (e *FnExec) appendBuiltin(st *State, c *ssa.CallCommon, res ssa.Value) {
 // eachScalarLoc enumerates scalar leaves of an element type together with the function that
 // maps an element location to the leaf location.
 func (e *FnExec) eachScalarLoc(t types.Type, f func(sub func(l *Term) *Term, lt types.Type)) {
-	var rec func(t types.Type, sub func(l *Term) *Term)
-	rec = func(t types.Type, sub func(l *Term) *Term) {
+	e.eachScalarLocChain(t, func(sub func(l *Term) *Term, _ []int, lt types.Type) { f(sub, lt) })
+}
+
+// eachScalarLocChain also passes the chain of field ids from the element to the leaf.
+func (e *FnExec) eachScalarLocChain(t types.Type, f func(sub func(l *Term) *Term, chain []int, lt types.Type)) {
+	var rec func(t types.Type, sub func(l *Term) *Term, chain []int)
+	rec = func(t types.Type, sub func(l *Term) *Term, chain []int) {
 		t = types.Unalias(t)
 		if si := structOf(t); si != nil {
 			for i := 0; i < si.typ.NumFields(); i++ {
 				fid := si.fids[i]
-				rec(si.typ.Field(i).Type(), func(l *Term) *Term { return FldLoc(sub(l), fid) })
+				rec(si.typ.Field(i).Type(), func(l *Term) *Term { return FldLoc(sub(l), fid) }, append(append([]int{}, chain...), fid))
 			}
 			return
 		}
 		if _, ok := t.Underlying().(*types.Array); ok {
 			return // arrays inside elements: not modelled by copy
 		}
-		f(sub, t)
+		f(sub, chain, t)
 	}
-	rec(t, func(l *Term) *Term { return l })
+	rec(t, func(l *Term) *Term { return l }, nil)
 }
 
 func (e *FnExec) copyBuiltin(st *State, c *ssa.CallCommon, res ssa.Value) {
